@@ -340,7 +340,7 @@ class Prop:
         if out.startswith('rej'):
             if case.line in self.may_reject:
                 return None      # the example may break the rule, or the value may not fit: refusing is fine, misreporting is not
-            return 'a valid schema is rejected: ' + out[:60]
+            return 'TIE:a schema the parser model accepts is refused by the library (C04 speaks about accepted schemas only): ' + out[:60]
         if out != want:
             return 'GetAST() differs from the source: %s vs %s' % (out[:160], want[:160])
         return None
